@@ -612,3 +612,696 @@ Section Bbox.
   Qed.
 
 End Bbox.
+
+(* ------------------------------------------- _latlon_tile_filter: purity *)
+
+Section FilterFn.
+  Variables tau pi thr : Q.
+  Hypothesis tau_pos : 0 < tau.
+
+  Local Notation flt := (latlon_tile_filter tau pi thr).
+
+  (* a Tile whose corners are a tuple (every tile below level 1) is never
+     modified, whatever the function does to its private copy *)
+  Lemma filter_pure_tuple fuel bx c : snd (flt fuel bx (mkTile CTuple c)) = mkTile CTuple c.
+  Proof. unfold latlon_tile_filter; cbn. destruct (bbox tau pi thr fuel c bx); reflexivity. Qed.
+
+  Lemma filter_tuple_result fuel bx c :
+    fst (flt fuel bx (mkTile CTuple c)) =
+    match bbox tau pi thr fuel c bx with Some r => FRet (r_dec r) (r_margin r) | None => FFuel end.
+  Proof. unfold latlon_tile_filter; cbn. destruct (bbox tau pi thr fuel c bx); reflexivity. Qed.
+
+  (* a Tile whose corners are an ndarray is left alone, and nothing is raised,
+     whenever the function returns before line 204: latitude reject or pole *)
+  Lemma filter_pure_early fuel bx rep c :
+    reaches_sort thr c bx = false ->
+    snd (flt fuel bx (mkTile rep c)) = mkTile rep c /\
+    exists b m, fst (flt fuel bx (mkTile rep c)) = FRet b m.
+  Proof.
+    intros H. destruct (bbox_early tau pi thr fuel c bx H) as (r & Hb & Hl & _).
+    unfold latlon_tile_filter; cbn [t_repr t_c]. rewrite Hb, H.
+    destruct rep; cbn [fst snd]; (split; [|eauto]); try reflexivity.
+    rewrite Hl. destruct c; reflexivity.
+  Qed.
+
+  (* level-1 tiles reach a pole, so they always return early *)
+  Lemma polar_returns_early c bx : polar thr c = true -> reaches_sort thr c bx = false.
+  Proof. unfold reaches_sort. intros ->. apply andb_false_r. Qed.
+
+  (* the tiles the generators make: ndarray rows at level 1 (read-only for the
+     astronomical system), tuples below *)
+  Lemma filter_generated_pure fuel bx planetary n c :
+    (n = 1%nat -> polar thr c = true) ->
+    let t := mkTile (repr_at_level planetary n) c in
+    snd (flt fuel bx t) = t /\ fst (flt fuel bx t) <> FRaise.
+  Proof.
+    intros Hp t. unfold t, repr_at_level.
+    destruct n as [|[|n]].
+    - split; [apply filter_pure_tuple|]. rewrite filter_tuple_result. destruct (bbox _ _ _ _ _ _); discriminate.
+    - destruct (filter_pure_early fuel bx (if planetary then CArrayRW else CArrayRO) c
+                  (polar_returns_early c bx (Hp eq_refl))) as (H1 & b & m & H2).
+      split; [exact H1|]. rewrite H2. discriminate.
+    - split; [apply filter_pure_tuple|]. rewrite filter_tuple_result. destruct (bbox _ _ _ _ _ _); discriminate.
+  Qed.
+
+End FilterFn.
+
+(* what the in-place code does to an ndarray that is NOT polar (no generator
+   makes such a Tile): a writable one is sorted/unwrapped in place, a read-only
+   one makes the call raise *)
+Lemma filter_array_rw_mutated :
+  exists c bx, snd (latlon_tile_filter 6 3 (3 # 2) 8 bx (mkTile CArrayRW c)) <> mkTile CArrayRW c.
+Proof.
+  exists (mkC (3, 1, 2, 0) (0, 0, 1, 1)), (mkBox 1 2 0 1). vm_compute. discriminate.
+Qed.
+
+Lemma filter_array_ro_raises :
+  exists c bx, fst (latlon_tile_filter 6 3 (3 # 2) 8 bx (mkTile CArrayRO c)) = FRaise.
+Proof.
+  exists (mkC (3, 1, 2, 0) (0, 0, 1, 1)), (mkBox 1 2 0 1). vm_compute. reflexivity.
+Qed.
+
+(* ----------------------------------------------------------------- chunks *)
+
+Definition tie (x : Q) : Prop := x - inject_Z (Qfloor x) == 1 # 2.
+
+Lemma Qfloor_unique x f : inject_Z f <= x -> x < inject_Z (f + 1) -> Qfloor x = f.
+Proof.
+  intros H1 H2. pose proof (Qfloor_le x) as H3. pose proof (Qlt_floor x) as H4.
+  assert (A : inject_Z f < inject_Z (Qfloor x + 1)) by lra.
+  assert (B : inject_Z (Qfloor x) < inject_Z (f + 1)) by lra.
+  rewrite <- Zlt_Qlt in A, B. lia.
+Qed.
+
+Lemma inject_Z_succ f : inject_Z (f + 1) == inject_Z f + 1.
+Proof. rewrite inject_Z_plus. reflexivity. Qed.
+
+Lemma inject_Z_sub a b : inject_Z (a - b) == inject_Z a - inject_Z b.
+Proof. unfold Z.sub. rewrite inject_Z_plus, inject_Z_opp. ring. Qed.
+
+Lemma Qfloor_shift x c : Qfloor (x - inject_Z c) = (Qfloor x - c)%Z.
+Proof.
+  apply Qfloor_unique.
+  - rewrite inject_Z_sub. pose proof (Qfloor_le x). lra.
+  - replace (Qfloor x - c + 1)%Z with (Qfloor x + 1 - c)%Z by lia.
+    rewrite inject_Z_sub. pose proof (Qlt_floor x). lra.
+Qed.
+
+Lemma rhe_bounds x : inject_Z (rhe x) - (1 # 2) <= x <= inject_Z (rhe x) + (1 # 2).
+Proof.
+  unfold rhe. pose proof (Qfloor_le x) as H1. pose proof (Qlt_floor x) as H2.
+  rewrite inject_Z_succ in H2.
+  destruct (Qcompare_spec (x - inject_Z (Qfloor x)) (1 # 2)) as [E|E|E].
+  - destruct (Z.even (Qfloor x)); [|rewrite inject_Z_succ]; lra.
+  - lra.
+  - rewrite inject_Z_succ. lra.
+Qed.
+
+Lemma rhe_comp x y : x == y -> rhe x = rhe y.
+Proof.
+  intros E. unfold rhe. rewrite (Qfloor_comp _ _ E).
+  assert (E2 : x - inject_Z (Qfloor y) == y - inject_Z (Qfloor y)) by (rewrite E; reflexivity).
+  rewrite (Qcompare_comp _ _ E2 _ _ (Qeq_refl (1 # 2))). reflexivity.
+Qed.
+
+(* rounding commutes with an integer shift away from ties (half-to-even does not
+   at a tie when the shift is odd) *)
+Lemma rhe_shift x c : ~ tie x -> rhe (x - inject_Z c) = (rhe x - c)%Z.
+Proof.
+  unfold tie, rhe. intros Hn. rewrite Qfloor_shift.
+  assert (E : x - inject_Z c - inject_Z (Qfloor x - c) == x - inject_Z (Qfloor x)).
+  { rewrite inject_Z_sub. ring. }
+  rewrite (Qcompare_comp _ _ E _ _ (Qeq_refl (1 # 2))).
+  destruct (Qcompare_spec (x - inject_Z (Qfloor x)) (1 # 2)) as [E'|E'|E']; [contradiction| |]; lia.
+Qed.
+
+Section Chunks.
+  Variables tau pi halfpi : Q.
+  Hypothesis tau_pos : 0 < tau.
+  Hypothesis pi_pos : 0 < pi.
+
+  Lemma inject_Z_pos k : (0 < k)%Z -> 0 < inject_Z k.
+  Proof. intros H. change 0 with (inject_Z 0). rewrite <- Zlt_Qlt. exact H. Qed.
+
+  (* neighbouring chunks share their edge exactly; the outer edges are the map's *)
+  Lemma chunk_bounds_adjacent_lon W H cx cy cw ch cw2 :
+    b_lon_max (chunk_bounds tau pi halfpi W H cx cy cw ch) =
+    b_lon_min (chunk_bounds tau pi halfpi W H (cx + cw) cy cw2 ch).
+  Proof. reflexivity. Qed.
+
+  Lemma chunk_bounds_adjacent_lat W H cx cy cw ch ch2 :
+    b_lat_min (chunk_bounds tau pi halfpi W H cx cy cw ch) =
+    b_lat_max (chunk_bounds tau pi halfpi W H cx (cy + ch) cw ch2).
+  Proof. reflexivity. Qed.
+
+  Lemma chunk_bounds_outer W H cw ch :
+    (0 < W)%Z -> (0 < H)%Z ->
+    b_lon_min (chunk_bounds tau pi halfpi W H 0 0 cw ch) == - pi /\
+    b_lat_max (chunk_bounds tau pi halfpi W H 0 0 cw ch) == halfpi /\
+    b_lon_max (chunk_bounds tau pi halfpi W H (W - cw) (H - ch) cw ch) == tau - pi /\
+    b_lat_min (chunk_bounds tau pi halfpi W H (W - cw) (H - ch) cw ch) == halfpi - pi.
+  Proof.
+    intros HW HH. pose proof (inject_Z_pos W HW). pose proof (inject_Z_pos H HH).
+    unfold chunk_bounds; cbn [b_lon_min b_lon_max b_lat_min b_lat_max].
+    replace (W - cw + cw)%Z with W by lia. replace (H - ch + ch)%Z with H by lia.
+    change (inject_Z 0) with 0.
+    repeat split; field; lra.
+  Qed.
+
+  Lemma chunk_bounds_ordered W H cx cy cw ch :
+    (0 < W)%Z -> (0 < H)%Z -> (0 < cw)%Z -> (0 < ch)%Z ->
+    box_ok (chunk_bounds tau pi halfpi W H cx cy cw ch) = true.
+  Proof.
+    intros HW HH Hw Hh. pose proof (inject_Z_pos W HW) as PW. pose proof (inject_Z_pos H HH) as PH.
+    pose proof (inject_Z_pos cw Hw) as Pw. pose proof (inject_Z_pos ch Hh) as Ph.
+    unfold box_ok, chunk_bounds; cbn [b_lon_min b_lon_max b_lat_min b_lat_max].
+    rewrite !inject_Z_plus.
+    assert (0 < tau / inject_Z W) by (apply Qlt_shift_div_l; lra).
+    assert (0 < pi / inject_Z H) by (apply Qlt_shift_div_l; lra).
+    apply andb_true_iff; split; apply Qltb_lt; nra.
+  Qed.
+
+  (* the longitude normalisation puts every longitude into [-pi, tau - pi) and
+     moves it by whole turns *)
+  Lemma Qmodp_range x : 0 <= Qmodp x tau < tau.
+  Proof.
+    unfold Qmodp. pose proof (Qfloor_le (x / tau)) as H1. pose proof (Qlt_floor (x / tau)) as H2.
+    rewrite inject_Z_succ in H2.
+    assert (Hx : x == tau * (x / tau)) by (rewrite Qmult_div_r; [reflexivity | lra]).
+    split; nra.
+  Qed.
+
+  Lemma norm_lon_range lon : - pi <= norm_lon tau pi lon < tau - pi.
+  Proof. unfold norm_lon. pose proof (Qmodp_range (lon + pi)). lra. Qed.
+
+  Lemma norm_lon_cong lon : exists k : Z, norm_lon tau pi lon == lon + inject_Z k * tau.
+  Proof.
+    exists (- Qfloor ((lon + pi) / tau))%Z. unfold norm_lon, Qmodp. rewrite inject_Z_opp. ring.
+  Qed.
+
+  (* a chunk's real-valued source index is the whole map's, measured from the
+     chunk's origin *)
+  Lemma chunk_gx_global W H cx cy cw ch lon :
+    (0 < W)%Z -> (0 < cw)%Z ->
+    chunk_gx tau pi (chunk_bounds tau pi halfpi W H cx cy cw ch) cw lon ==
+    whole_gx tau pi W lon - inject_Z cx.
+  Proof.
+    intros HW Hw. pose proof (inject_Z_pos W HW). pose proof (inject_Z_pos cw Hw).
+    unfold chunk_gx, whole_gx, chunk_bounds; cbn [b_lon_min b_lon_max].
+    rewrite inject_Z_plus. field. repeat split; try lra.
+    intros E. assert (E2 : tau * inject_Z cw == 0) by lra. nra.
+  Qed.
+
+  Lemma chunk_gy_global W H cx cy cw ch lat :
+    (0 < H)%Z -> (0 < ch)%Z ->
+    chunk_gy (chunk_bounds tau pi halfpi W H cx cy cw ch) ch lat ==
+    whole_gy pi halfpi H lat - inject_Z cy.
+  Proof.
+    intros HH Hh. pose proof (inject_Z_pos H HH). pose proof (inject_Z_pos ch Hh).
+    unfold chunk_gy, whole_gy, chunk_bounds; cbn [b_lat_min b_lat_max].
+    rewrite inject_Z_plus. field. repeat split; try lra.
+    intros E. assert (E2 : pi * inject_Z ch == 0) by lra. nra.
+  Qed.
+
+  Definition in_span (g : Z) (sp : Z * Z) : bool := ((fst sp <=? g) && (g <? fst sp + snd sp))%Z.
+
+  (* the chunk sampler keeps exactly the pixels whose rounded global source
+     index lies in the chunk, and reads the chunk-local element *)
+  Lemma chunk_sample_global W H cx cy cw ch lon lat :
+    (0 < W)%Z -> (0 < H)%Z -> (0 < cw)%Z -> (0 < ch)%Z ->
+    ~ tie (whole_gx tau pi W lon) -> ~ tie (whole_gy pi halfpi H lat) ->
+    chunk_sample tau pi (chunk_bounds tau pi halfpi W H cx cy cw ch) cw ch lon lat =
+    let X := rhe (whole_gx tau pi W lon) in
+    let Y := rhe (whole_gy pi halfpi H lat) in
+    if in_span X (cx, cw) && in_span Y (cy, ch) then Some ((Y - cy)%Z, (X - cx)%Z) else None.
+  Proof.
+    intros HW HH Hw Hh Tx Ty. unfold chunk_sample.
+    rewrite (rhe_comp _ _ (chunk_gx_global W H cx cy cw ch lon HW Hw)).
+    rewrite (rhe_comp _ _ (chunk_gy_global W H cx cy cw ch lat HH Hh)).
+    rewrite (rhe_shift _ cx Tx), (rhe_shift _ cy Ty). cbv zeta.
+    unfold in_span; cbn [fst snd].
+    set (X := rhe (whole_gx tau pi W lon)). set (Y := rhe (whole_gy pi halfpi H lat)).
+    destruct (0 <=? X - cx)%Z eqn:E1, (X - cx <? cw)%Z eqn:E2, (0 <=? Y - cy)%Z eqn:E3, (Y - cy <? ch)%Z eqn:E4,
+             (cx <=? X)%Z eqn:F1, (X <? cx + cw)%Z eqn:F2, (cy <=? Y)%Z eqn:F3, (Y <? cy + ch)%Z eqn:F4;
+      cbn [andb]; try reflexivity; lia.
+  Qed.
+
+  (* in exact arithmetic the whole-map sampler's clip never acts on a
+     non-tie point with latitude in (halfpi - pi, halfpi] *)
+  Lemma whole_index_range W H lon lat :
+    (0 < W)%Z -> (0 < H)%Z -> halfpi - pi < lat <= halfpi ->
+    ~ tie (whole_gx tau pi W lon) -> ~ tie (whole_gy pi halfpi H lat) ->
+    (0 <= rhe (whole_gx tau pi W lon) < W)%Z /\ (0 <= rhe (whole_gy pi halfpi H lat) < H)%Z.
+  Proof.
+    intros HW HH Hlat Tx Ty.
+    pose proof (inject_Z_pos W HW) as PW. pose proof (inject_Z_pos H HH) as PH.
+    pose proof (norm_lon_range lon) as Hn.
+    pose proof (rhe_bounds (whole_gx tau pi W lon)) as Bx.
+    pose proof (rhe_bounds (whole_gy pi halfpi H lat)) as By.
+    assert (Ex : whole_gx tau pi W lon == (norm_lon tau pi lon + pi) * inject_Z W / tau - (1 # 2)).
+    { unfold whole_gx. field. lra. }
+    assert (Ey : whole_gy pi halfpi H lat == (halfpi - lat) * inject_Z H / pi - (1 # 2)).
+    { unfold whole_gy. field. lra. }
+    (* 0 <= (nl + pi) W / tau < W *)
+    assert (Rx : 0 <= (norm_lon tau pi lon + pi) * inject_Z W / tau < inject_Z W).
+    { split.
+      - apply Qle_shift_div_l; [lra|]. nra.
+      - apply Qlt_shift_div_r; [lra|]. nra. }
+    assert (Ry : 0 <= (halfpi - lat) * inject_Z H / pi < inject_Z H).
+    { split.
+      - apply Qle_shift_div_l; [lra|]. nra.
+      - apply Qlt_shift_div_r; [lra|]. nra. }
+    (* exclude the tie at -1/2 *)
+    assert (Nx : ~ whole_gx tau pi W lon == - (1 # 2)).
+    { intros E. apply Tx. unfold tie.
+      assert (Qfloor (whole_gx tau pi W lon) = (-1)%Z) as ->.
+      { apply Qfloor_unique; rewrite E; [change (inject_Z (-1)) with (-1 # 1)|change (inject_Z (-1 + 1)) with 0]; lra. }
+      rewrite E. reflexivity. }
+    assert (Ny : ~ whole_gy pi halfpi H lat == - (1 # 2)).
+    { intros E. apply Ty. unfold tie.
+      assert (Qfloor (whole_gy pi halfpi H lat) = (-1)%Z) as ->.
+      { apply Qfloor_unique; rewrite E; [change (inject_Z (-1)) with (-1 # 1)|change (inject_Z (-1 + 1)) with 0]; lra. }
+      rewrite E. reflexivity. }
+    set (X := rhe (whole_gx tau pi W lon)) in *. set (Y := rhe (whole_gy pi halfpi H lat)) in *.
+    assert (AX : inject_Z (-1) < inject_Z X) by (change (inject_Z (-1)) with (-1 # 1); lra).
+    assert (BX : inject_Z X < inject_Z W) by lra.
+    assert (AY : inject_Z (-1) < inject_Z Y) by (change (inject_Z (-1)) with (-1 # 1); lra).
+    assert (BY : inject_Z Y < inject_Z H) by lra.
+    rewrite <- Zlt_Qlt in AX, BX, AY, BY. lia.
+  Qed.
+
+  (* spans *)
+  Fixpoint zsum (l : list Z) : Z := match l with [] => 0%Z | w :: l' => (w + zsum l')%Z end.
+
+  Lemma spans_miss {B} (f : Z * Z -> list B) (v : B) (g : Z) : forall ws s,
+    Forall (fun w => (0 < w)%Z) ws -> (g < s)%Z ->
+    (forall sp, In sp (spans_from s ws) -> f sp = if in_span g sp then [v] else []) ->
+    flat_map f (spans_from s ws) = [].
+  Proof.
+    induction ws as [|w ws IH]; intros s Hpos Hg Hf; [reflexivity|].
+    inversion Hpos; subst. cbn [spans_from flat_map].
+    rewrite (Hf (s, w)) by (left; reflexivity).
+    unfold in_span at 1; cbn [fst snd].
+    replace (s <=? g)%Z with false by (symmetry; apply Z.leb_gt; lia). cbn [andb app].
+    apply IH; auto; [lia|]. intros sp Hin. apply Hf. right. exact Hin.
+  Qed.
+
+  Lemma spans_hit {B} (f : Z * Z -> list B) (v : B) (g : Z) : forall ws s,
+    Forall (fun w => (0 < w)%Z) ws -> (s <= g < s + zsum ws)%Z ->
+    (forall sp, In sp (spans_from s ws) -> f sp = if in_span g sp then [v] else []) ->
+    flat_map f (spans_from s ws) = [v].
+  Proof.
+    induction ws as [|w ws IH]; intros s Hpos Hg Hf; [cbn in Hg; lia|].
+    inversion Hpos; subst. cbn [spans_from flat_map zsum] in *.
+    rewrite (Hf (s, w)) by (left; reflexivity).
+    unfold in_span at 1; cbn [fst snd].
+    replace (s <=? g)%Z with true by (symmetry; apply Z.leb_le; lia). cbn [andb].
+    destruct (g <? s + w)%Z eqn:E.
+    - apply Z.ltb_lt in E. rewrite (spans_miss f v g ws (s + w)%Z); auto.
+      intros sp Hin. apply Hf. right. exact Hin.
+    - apply Z.ltb_ge in E. cbn [app]. apply IH; auto; [lia|].
+      intros sp Hin. apply Hf. right. exact Hin.
+  Qed.
+
+  Lemma spans_positive : forall ws s sp,
+    Forall (fun w => (0 < w)%Z) ws -> In sp (spans_from s ws) -> (0 < snd sp)%Z.
+  Proof.
+    induction ws as [|w ws IH]; intros s sp Hpos Hin; [contradiction|].
+    inversion Hpos; subst. destruct Hin as [<- | Hin]; [assumption|]. eapply IH; eauto.
+  Qed.
+
+  (* chunks_cover: away from rounding ties, exactly one chunk of the grid leaves
+     the point unmasked, and it reads the very source pixel the whole-map
+     sampler reads *)
+  Lemma grid_samples_whole W H cols rows lon lat :
+    (0 < W)%Z -> (0 < H)%Z ->
+    Forall (fun w => (0 < w)%Z) cols -> Forall (fun w => (0 < w)%Z) rows ->
+    zsum cols = W -> zsum rows = H ->
+    halfpi - pi < lat <= halfpi ->
+    ~ tie (whole_gx tau pi W lon) -> ~ tie (whole_gy pi halfpi H lat) ->
+    grid_samples tau pi halfpi W H cols rows lon lat = [whole_sample tau pi halfpi W H lon lat].
+  Proof.
+    intros HW HH Pc Pr Sc Sr Hlat Tx Ty.
+    destruct (whole_index_range W H lon lat HW HH Hlat Tx Ty) as [RX RY].
+    unfold grid_samples, whole_sample.
+    set (X := rhe (whole_gx tau pi W lon)) in *. set (Y := rhe (whole_gy pi halfpi H lat)) in *.
+    unfold clip. replace (Z.min (Z.max Y 0) (H - 1)) with Y by lia.
+    replace (Z.min (Z.max X 0) (W - 1)) with X by lia.
+    apply (spans_hit _ (Y, X) Y); auto; [lia|].
+    intros ry Hry. pose proof (spans_positive rows 0%Z ry Pr Hry) as Hh.
+    destruct (in_span Y ry) eqn:EY.
+    - apply (spans_hit _ (Y, X) X); auto; [lia|].
+      intros cx Hcx. pose proof (spans_positive cols 0%Z cx Pc Hcx) as Hw.
+      rewrite (chunk_sample_global W H (fst cx) (fst ry) (snd cx) (snd ry) lon lat HW HH Hw Hh Tx Ty).
+      cbv zeta. fold X Y. destruct cx as [x0 w], ry as [y0 h]; cbn [fst snd] in *.
+      rewrite EY. destruct (in_span X (x0, w)); cbn [andb]; [|reflexivity].
+      repeat f_equal; lia.
+    - (* no column of this row can hit *)
+      assert (Hnil : forall l, flat_map
+                (fun cx : Z * Z =>
+                 match chunk_sample tau pi (chunk_bounds tau pi halfpi W H (fst cx) (fst ry) (snd cx) (snd ry))
+                         (snd cx) (snd ry) lon lat with
+                 | Some (iy, ix) => [((fst ry + iy)%Z, (fst cx + ix)%Z)]
+                 | None => []
+                 end) l = [] \/ ~ Forall (fun sp => (0 < snd sp)%Z) l).
+      { induction l as [|cx l IHl]; [left; reflexivity|].
+        destruct (Z_lt_dec 0 (snd cx)) as [Hw|Hw].
+        - destruct IHl as [IHl|IHl].
+          + left. cbn [flat_map]. rewrite IHl.
+            rewrite (chunk_sample_global W H (fst cx) (fst ry) (snd cx) (snd ry) lon lat HW HH Hw Hh Tx Ty).
+            cbv zeta. fold X Y. destruct ry as [y0 h]; cbn [fst snd] in *. rewrite EY.
+            rewrite andb_false_r. reflexivity.
+          + right. intros F. inversion F; auto.
+        - right. intros F. inversion F; auto. }
+      destruct (Hnil (spans_from 0 cols)) as [E|E]; [exact E|exfalso].
+      apply E. apply Forall_forall. intros sp Hin. exact (spans_positive cols 0%Z sp Pc Hin).
+  Qed.
+
+  (* an unmasked pixel of a chunk lies in the chunk's box *)
+  Lemma chunk_sample_in_box bx nx ny lon lat r :
+    b_lon_min bx < b_lon_max bx -> b_lat_min bx < b_lat_max bx -> (0 < nx)%Z -> (0 < ny)%Z ->
+    chunk_sample tau pi bx nx ny lon lat = Some r ->
+    b_lon_min bx <= norm_lon tau pi lon <= b_lon_max bx /\ b_lat_min bx <= lat <= b_lat_max bx.
+  Proof.
+    intros Hlon Hlat Hnx Hny. unfold chunk_sample.
+    pose proof (inject_Z_pos nx Hnx) as Pnx. pose proof (inject_Z_pos ny Hny) as Pny.
+    pose proof (rhe_bounds (chunk_gx tau pi bx nx lon)) as Bx.
+    pose proof (rhe_bounds (chunk_gy bx ny lat)) as By.
+    set (ix := rhe (chunk_gx tau pi bx nx lon)) in *. set (iy := rhe (chunk_gy bx ny lat)) in *.
+    destruct ((0 <=? ix) && (ix <? nx) && (0 <=? iy) && (iy <? ny))%Z eqn:E; [|discriminate].
+    intros _. apply andb_true_iff in E. destruct E as [E E4]. apply andb_true_iff in E. destruct E as [E E3].
+    apply andb_true_iff in E. destruct E as [E1 E2].
+    apply Z.leb_le in E1, E3. apply Z.ltb_lt in E2, E4.
+    assert (I1 : 0 <= inject_Z ix) by (apply inject_Z_ge0; lia).
+    assert (I2 : inject_Z ix <= inject_Z nx - 1).
+    { rewrite <- (inject_Z_sub nx 1). rewrite <- Zle_Qle. lia. }
+    assert (I3 : 0 <= inject_Z iy) by (apply inject_Z_ge0; lia).
+    assert (I4 : inject_Z iy <= inject_Z ny - 1).
+    { rewrite <- (inject_Z_sub ny 1). rewrite <- Zle_Qle. lia. }
+    set (dl := b_lon_max bx - b_lon_min bx) in *. set (da := b_lat_max bx - b_lat_min bx) in *.
+    assert (Pdl : 0 < dl) by (unfold dl; lra). assert (Pda : 0 < da) by (unfold da; lra).
+    assert (Ex : (chunk_gx tau pi bx nx lon + (1 # 2)) * dl == (norm_lon tau pi lon - b_lon_min bx) * inject_Z nx).
+    { unfold chunk_gx. fold dl. field. lra. }
+    assert (Ey : (chunk_gy bx ny lat + (1 # 2)) * da == (b_lat_max bx - lat) * inject_Z ny).
+    { unfold chunk_gy. fold da. field. lra. }
+    set (a := chunk_gx tau pi bx nx lon + (1 # 2)) in *.
+    set (b := chunk_gy bx ny lat + (1 # 2)) in *.
+    assert (A0 : 0 <= a * dl) by (apply Qmult_le_0_compat; unfold a; lra).
+    assert (A1 : a * dl <= inject_Z nx * dl) by (apply Qmult_le_compat_r; unfold a; lra).
+    assert (B0 : 0 <= b * da) by (apply Qmult_le_0_compat; unfold b; lra).
+    assert (B1 : b * da <= inject_Z ny * da) by (apply Qmult_le_compat_r; unfold b; lra).
+    assert (Edl : dl == b_lon_max bx - b_lon_min bx) by reflexivity.
+    assert (Eda : da == b_lat_max bx - b_lat_min bx) by reflexivity.
+    clearbody a b dl da.
+    generalize dependent (norm_lon tau pi lon). intros nl Ex.
+    generalize dependent (inject_Z nx). generalize dependent (inject_Z ny). intros qy Pny I4 B1 Ey qx Pnx I2 Ex A1.
+    split; split; nra.
+  Qed.
+
+End Chunks.
+
+(* ------------------------------------- _image_bounds: which pixels are sampled *)
+
+Definition InQ (x : Q) (l : list Q) : Prop := exists y, In y l /\ y == x.
+
+Lemma zrange_In k : forall n s, In k (zrange s n) <-> (s <= k < s + Z.of_nat n)%Z.
+Proof.
+  induction n as [|n IH]; intros s; cbn [zrange In].
+  - lia.
+  - rewrite IH. lia.
+Qed.
+
+Lemma cidx_diff naxis k1 k2 :
+  cidx naxis k2 - cidx naxis k1 == inject_Z (k2 - k1) * inject_Z naxis / 31.
+Proof. unfold cidx, NM. rewrite inject_Z_sub. change (inject_Z 31) with 31. field. Qed.
+
+Lemma linspace_first a b n : (1 <= n)%Z -> InQ a (linspace a b n).
+Proof.
+  intros Hn. unfold linspace. destruct (n =? 1)%Z eqn:E.
+  - exists a. split; [left; reflexivity|reflexivity].
+  - apply Z.eqb_neq in E. exists (a + inject_Z 0 * (b - a) / inject_Z (n - 1)). split.
+    + apply in_map_iff. exists 0%Z. split; [reflexivity|]. apply zrange_In. lia.
+    + change (inject_Z 0) with 0. assert (0 < inject_Z (n - 1)) by (apply inject_Z_pos; lia). field. lra.
+Qed.
+
+Lemma linspace_last a b n : (2 <= n)%Z -> InQ b (linspace a b n).
+Proof.
+  intros Hn. unfold linspace. destruct (n =? 1)%Z eqn:E; [apply Z.eqb_eq in E; lia|].
+  exists (a + inject_Z (n - 1) * (b - a) / inject_Z (n - 1)). split.
+  - apply in_map_iff. exists (n - 1)%Z. split; [reflexivity|]. apply zrange_In. lia.
+  - assert (0 < inject_Z (n - 1)) by (apply inject_Z_pos; lia). field. lra.
+Qed.
+
+(* the defect (F7): with a single sample linspace returns the START of the
+   window only, so neither the coarse extreme nor the far end is looked at *)
+Lemma refine_axis_coded_n1 naxis e :
+  (1 <= naxis)%Z -> ((clamp_hi e - clamp_lo e) * naxis <= 31)%Z ->
+  refine_axis 0 naxis e = [cidx naxis (clamp_lo e)].
+Proof.
+  intros Hn Hw. unfold refine_axis, refine_n.
+  assert (Hc : (Qceiling (cidx naxis (clamp_hi e) - cidx naxis (clamp_lo e)) <= 1)%Z).
+  { rewrite <- (Qceiling_Z 1). apply Qceiling_resp_le. rewrite cidx_diff.
+    rewrite <- inject_Z_mult. apply Qle_shift_div_r; [reflexivity|].
+    change (inject_Z 1 * 31) with (inject_Z 31). rewrite <- Zle_Qle. exact Hw. }
+  replace (Z.max _ 1 + 0)%Z with 1%Z by lia. reflexivity.
+Qed.
+
+Lemma refine_includes_coarse_refuted_l :
+  exists naxis e, (1 <= naxis)%Z /\ (0 <= e <= NM)%Z /\
+    existsb (Qeq_bool (cidx naxis e)) (refine_axis 0 naxis e) = false.
+Proof. exists 31%Z, 31%Z. repeat split; try (unfold NM; lia). Qed.
+
+Lemma refine_lon_includes_coarse_refuted_l :
+  exists naxis1 naxis2 e, (1 <= naxis1)%Z /\ (1 <= naxis2)%Z /\ (0 <= e <= 4 * NM)%Z /\
+    mem_pt (cidx naxis1 (fst (edge_walk e)), cidx naxis2 (snd (edge_walk e)))
+           (refine_lon_pts 0 naxis1 naxis2 e) = false.
+Proof. exists 10%Z, 200%Z, 5%Z. repeat split; try (unfold NM; lia). Qed.
+
+(* the repaired sampling: the coarse extreme takes part in the final
+   argmin/argmax, both ends of every window are sampled, and neighbouring
+   samples are at most one pixel apart *)
+Lemma refine_lat_fixed_includes_coarse n1 n2 e1 e2 :
+  mem_pt (cidx n1 e1, cidx n2 e2) (refine_lat_fixed n1 n2 e1 e2) = true.
+Proof.
+  unfold refine_lat_fixed, mem_pt. cbn [existsb]. unfold Qeqb2 at 1. cbn [fst snd].
+  rewrite !(proj2 (Qeq_bool_iff _ _) (Qeq_refl _)). reflexivity.
+Qed.
+
+Lemma refine_lon_fixed_includes_coarse n1 n2 e :
+  mem_pt (cidx n1 (fst (edge_walk e)), cidx n2 (snd (edge_walk e))) (refine_lon_fixed n1 n2 e) = true.
+Proof.
+  unfold refine_lon_fixed, mem_pt. cbn [existsb]. unfold Qeqb2 at 1. cbn [fst snd].
+  rewrite !(proj2 (Qeq_bool_iff _ _) (Qeq_refl _)). reflexivity.
+Qed.
+
+Lemma refine_n_fixed_ge2 naxis lo hi : (2 <= refine_n 1 naxis lo hi)%Z.
+Proof. unfold refine_n. lia. Qed.
+
+Lemma refine_axis_fixed_ends naxis e :
+  InQ (cidx naxis (clamp_lo e)) (refine_axis 1 naxis e) /\
+  InQ (cidx naxis (clamp_hi e)) (refine_axis 1 naxis e).
+Proof.
+  unfold refine_axis. pose proof (refine_n_fixed_ge2 naxis (clamp_lo e) (clamp_hi e)).
+  split; [apply linspace_first; lia | apply linspace_last; lia].
+Qed.
+
+(* spacing of the repaired refined samples: (b - a) / (n - 1) <= 1 pixel *)
+Lemma refine_axis_fixed_spacing naxis e :
+  let a := cidx naxis (clamp_lo e) in let b := cidx naxis (clamp_hi e) in
+  (b - a) / inject_Z (refine_n 1 naxis (clamp_lo e) (clamp_hi e) - 1) <= 1.
+Proof.
+  cbv zeta. unfold refine_n.
+  set (w := cidx naxis (clamp_hi e) - cidx naxis (clamp_lo e)).
+  replace (Z.max (Qceiling w) 1 + 1 - 1)%Z with (Z.max (Qceiling w) 1) by lia.
+  assert (P : 0 < inject_Z (Z.max (Qceiling w) 1)) by (apply inject_Z_pos; lia).
+  apply Qle_shift_div_r; [exact P|]. rewrite Qmult_1_l.
+  eapply Qle_trans; [apply Qle_ceiling|]. rewrite <- Zle_Qle. lia.
+Qed.
+
+(* the unwrapping of the edge longitudes moves values by whole turns and
+   leaves neighbours within half a turn of each other *)
+Lemma unwrap_dn_spec fuel : forall v0 v1 d v d',
+  unwrap_dn fuel v0 v1 d = Some (v, d') ->
+  v - v0 <= 180 /\ v == v1 + inject_Z (d' - d) * 360 /\ (d' <= d)%Z /\ (d' = d \/ -180 < v - v0).
+Proof.
+  induction fuel as [|f IH]; intros v0 v1 d v d' H; [discriminate|].
+  cbn [unwrap_dn] in H. qcase 180 (v1 - v0).
+  - apply IH in H. destruct H as (H1 & H2 & H3 & H4). repeat split; try lia; try lra.
+    + rewrite H2. rewrite !inject_Z_sub, ?inject_Z_plus. change (inject_Z 1) with 1. ring.
+    + right. destruct H4 as [-> | H4]; [|exact H4].
+      replace (d - 1 - (d - 1))%Z with 0%Z in H2 by lia. change (inject_Z 0) with 0 in H2. lra.
+  - injection H as <- <-. replace (d - d)%Z with 0%Z by lia. change (inject_Z 0) with 0.
+    repeat split; try lia; try lra.
+Qed.
+
+Lemma unwrap_up_spec fuel : forall v0 v1 d v d',
+  unwrap_up fuel v0 v1 d = Some (v, d') ->
+  v0 - v <= 180 /\ v == v1 + inject_Z (d' - d) * 360 /\ (d <= d')%Z /\ (d' = d \/ v - v0 < 180).
+Proof.
+  induction fuel as [|f IH]; intros v0 v1 d v d' H; [discriminate|].
+  cbn [unwrap_up] in H. qcase 180 (v0 - v1).
+  - apply IH in H. destruct H as (H1 & H2 & H3 & H4). repeat split; try lia; try lra.
+    + rewrite H2. rewrite !inject_Z_sub, ?inject_Z_plus. change (inject_Z 1) with 1. ring.
+    + right. destruct H4 as [-> | H4]; [|exact H4].
+      replace (d + 1 - (d + 1))%Z with 0%Z in H2 by lia. change (inject_Z 0) with 0 in H2. lra.
+  - injection H as <- <-. replace (d - d)%Z with 0%Z by lia. change (inject_Z 0) with 0.
+    repeat split; try lia; try lra.
+Qed.
+
+(* ------------------------------------------------ the property's predicate *)
+
+Section Complete.
+  Variables tau pi thr : Q.
+  Hypothesis tau_pos : 0 < tau.
+
+  (* The geometry of the tiles is a parameter here (C04/C05 own it):
+     corners_of is the generator's corner table, centre the pixel-centre grid. *)
+  Variable corners_of : pos -> corners.
+  Variable centre : pos -> Z -> Z -> Q * Q.      (* (lon, lat) of pixel (i, j) *)
+
+  (* what the geometry layer has to deliver for a point of a tile: its latitude
+     is within the corners' latitude range and, unless the tile reaches a pole,
+     its longitude is congruent to a point strictly inside the corners'
+     unwrapped longitude range *)
+  Definition tile_holds (fuel : nat) (q : pos) (lon lat : Q) : Prop :=
+    in_range4 (lats (corners_of q)) lat /\
+    (polar thr (corners_of q) = true \/
+     exists tmin tmax k, tile_lon_range tau pi fuel (corners_of q) = Some (tmin, tmax) /\
+                         tmin < lon + inject_Z k * tau < tmax).
+
+  (* lat/lon box membership, longitudes modulo tau *)
+  Definition in_box (bx : box) (lon lat : Q) : Prop :=
+    (exists k, b_lon_min bx <= lon + inject_Z k * tau <= b_lon_max bx) /\
+    b_lat_min bx <= lat <= b_lat_max bx.
+
+  Definition box_filter (fuel : nat) (bx : box) (q : pos) : bool :=
+    match bbox tau pi thr fuel (corners_of q) bx with Some r => r_dec r | None => false end.
+
+  (* C07, box case: a tile with a pixel centre in the box is accepted, and so is
+     every ancestor, provided the geometry puts the centre inside each of them
+     and the span loop terminates on their corners. *)
+  Lemma box_filter_complete_l fuel bx p lon lat :
+    in_box bx lon lat ->
+    (forall k, (k < pn p)%nat ->
+       tile_holds fuel (ancestor k p) lon lat /\
+       bbox tau pi thr fuel (corners_of (ancestor k p)) bx <> None) ->
+    accepted_chain (box_filter fuel bx) p.
+  Proof.
+    intros [(k2 & Hk2) Hlat] Hall k Hk. destruct (Hall k Hk) as [[Hr Hl] Hterm].
+    unfold box_filter.
+    destruct (bbox tau pi thr fuel (corners_of (ancestor k p)) bx) as [r|] eqn:Eb; [|congruence].
+    eapply (bbox_sound_l tau pi thr tau_pos fuel _ _ r Eb lon lat Hr Hlat).
+    destruct Hl as [Hp | (tmin & tmax & k1 & Hrange & Hin)]; [left; exact Hp|right].
+    exists tmin, tmax, k1, k2. repeat split; try lra; try exact Hrange; left; lra.
+  Qed.
+
+  (* consequence for sampling: let a sampler be masked (None) outside the box.
+     A leaf tile gets a file iff it holds data; filtering removes no such leaf. *)
+  Variable V : Type.
+  Variable samp : Q -> Q -> option V.
+
+  Definition has_data (p : pos) : Prop :=
+    exists i j, (0 <= i < 256)%Z /\ (0 <= j < 256)%Z /\
+                samp (fst (centre p i j)) (snd (centre p i j)) <> None.
+
+  Lemma filtered_eq_unfiltered_l fuel bx p :
+    (forall lon lat, samp lon lat <> None -> in_box bx lon lat) ->
+    (forall i j k, (k < pn p)%nat ->
+       tile_holds fuel (ancestor k p) (fst (centre p i j)) (snd (centre p i j)) /\
+       bbox tau pi thr fuel (corners_of (ancestor k p)) bx <> None) ->
+    (has_data p <-> accepted_chain (box_filter fuel bx) p /\ has_data p).
+  Proof.
+    intros Hmask Hgeo. split; [|tauto].
+    intros Hd. split; [|exact Hd].
+    destruct Hd as (i & j & _ & _ & Hs).
+    eapply box_filter_complete_l; [apply Hmask; exact Hs|].
+    intros k Hk. apply Hgeo. exact Hk.
+  Qed.
+
+End Complete.
+
+(* a chunk's unmasked pixel is in the chunk's box (mod tau), so the chunk's
+   filter accepts its tile: instance of box_filter_complete_l *)
+Lemma chunk_sample_in_box_mod tau pi bx nx ny lon lat r :
+  0 < tau ->
+  b_lon_min bx < b_lon_max bx -> b_lat_min bx < b_lat_max bx -> (0 < nx)%Z -> (0 < ny)%Z ->
+  chunk_sample tau pi bx nx ny lon lat = Some r -> in_box tau bx lon lat.
+Proof.
+  intros Ht H1 H2 H3 H4 H5.
+  destruct (chunk_sample_in_box tau pi bx nx ny lon lat r H1 H2 H3 H4 H5) as [Hl Ha].
+  destruct (norm_lon_cong tau pi lon) as (k & Ek).
+  split; [|exact Ha]. exists k. rewrite <- Ek. exact Hl.
+Qed.
+
+(* sequential sampling of all chunks with `update` (masked pixels do not
+   overwrite, C15): after the last chunk every pixel holds the whole-map value *)
+Definition merge_px {V} (old new : option V) : option V :=
+  match new with Some v => Some v | None => old end.
+
+Lemma merge_singleton {V} (vals : list (option V)) (v : V) :
+  (exists l1 l2, vals = l1 ++ Some v :: l2 /\ Forall (fun x => x = None) l1 /\ Forall (fun x => x = None) l2) ->
+  forall init, fold_left merge_px vals init = Some v.
+Proof.
+  intros (l1 & l2 & -> & F1 & F2) init. rewrite fold_left_app. cbn [fold_left].
+  assert (G : forall l a, Forall (fun x : option V => x = None) l -> fold_left merge_px l a = a).
+  { induction l as [|x l IH]; intros a F; [reflexivity|]. inversion F; subst. cbn. apply IH. assumption. }
+  rewrite (G l1 init F1). cbn [merge_px]. apply G. exact F2.
+Qed.
+
+(* ---------------------------------------------- combined forms for Properties *)
+
+Lemma sort4_correct l : sorted4 (sort4 l) /\ Permutation (list4 (sort4 l)) (list4 l).
+Proof. split; [apply sort4_sorted | apply sort4_perm]. Qed.
+
+Lemma refine_axis_fixed_l naxis e :
+  InQ (cidx naxis (clamp_lo e)) (refine_axis 1 naxis e) /\
+  InQ (cidx naxis (clamp_hi e)) (refine_axis 1 naxis e) /\
+  (cidx naxis (clamp_hi e) - cidx naxis (clamp_lo e)) /
+    inject_Z (refine_n 1 naxis (clamp_lo e) (clamp_hi e) - 1) <= 1.
+Proof.
+  destruct (refine_axis_fixed_ends naxis e) as [A B]. split; [exact A|split; [exact B|]].
+  apply refine_axis_fixed_spacing.
+Qed.
+
+Lemma refine_fixed_includes_coarse_l n1 n2 :
+  (forall e1 e2, mem_pt (cidx n1 e1, cidx n2 e2) (refine_lat_fixed n1 n2 e1 e2) = true) /\
+  (forall e, mem_pt (cidx n1 (fst (edge_walk e)), cidx n2 (snd (edge_walk e))) (refine_lon_fixed n1 n2 e) = true).
+Proof. split; intros; [apply refine_lat_fixed_includes_coarse | apply refine_lon_fixed_includes_coarse]. Qed.
+
+Lemma chunks_tile_l tau pi halfpi W H :
+  0 < tau -> 0 < pi -> (0 < W)%Z -> (0 < H)%Z ->
+  (forall cx cy cw ch cw2,
+     b_lon_max (chunk_bounds tau pi halfpi W H cx cy cw ch) =
+     b_lon_min (chunk_bounds tau pi halfpi W H (cx + cw) cy cw2 ch)) /\
+  (forall cx cy cw ch ch2,
+     b_lat_min (chunk_bounds tau pi halfpi W H cx cy cw ch) =
+     b_lat_max (chunk_bounds tau pi halfpi W H cx (cy + ch) cw ch2)) /\
+  (forall cw ch,
+     b_lon_min (chunk_bounds tau pi halfpi W H 0 0 cw ch) == - pi /\
+     b_lat_max (chunk_bounds tau pi halfpi W H 0 0 cw ch) == halfpi /\
+     b_lon_max (chunk_bounds tau pi halfpi W H (W - cw) (H - ch) cw ch) == tau - pi /\
+     b_lat_min (chunk_bounds tau pi halfpi W H (W - cw) (H - ch) cw ch) == halfpi - pi) /\
+  (forall cx cy cw ch, (0 < cw)%Z -> (0 < ch)%Z ->
+     box_ok (chunk_bounds tau pi halfpi W H cx cy cw ch) = true).
+Proof.
+  intros Ht Hp HW HH. repeat split; intros.
+  - apply (chunk_bounds_outer tau pi halfpi W H cw ch HW HH).
+  - apply (chunk_bounds_outer tau pi halfpi W H cw ch HW HH).
+  - apply (chunk_bounds_outer tau pi halfpi W H cw ch HW HH).
+  - apply (chunk_bounds_outer tau pi halfpi W H cw ch HW HH).
+  - apply chunk_bounds_ordered; assumption.
+Qed.
+
+Lemma filter_pure_l tau pi thr fuel bx :
+  (forall c, snd (latlon_tile_filter tau pi thr fuel bx (mkTile CTuple c)) = mkTile CTuple c /\
+             fst (latlon_tile_filter tau pi thr fuel bx (mkTile CTuple c)) =
+             match bbox tau pi thr fuel c bx with Some r => FRet (r_dec r) (r_margin r) | None => FFuel end) /\
+  (forall planetary n c, (n = 1%nat -> polar thr c = true) ->
+     let t := mkTile (repr_at_level planetary n) c in
+     snd (latlon_tile_filter tau pi thr fuel bx t) = t /\
+     fst (latlon_tile_filter tau pi thr fuel bx t) <> FRaise).
+Proof.
+  split.
+  - intros c. split; [apply filter_pure_tuple | apply filter_tuple_result].
+  - intros. apply filter_generated_pure. assumption.
+Qed.
